@@ -114,7 +114,6 @@ def answerL (fs : List (String × String)) : String :=
     | some pairs =>
       let matches_ := pairs.map (·.1)
       let nameSet := (pairs.filter (·.2)).map (·.1.text)
-      let o := pyOracles (fun s => nameSet.contains s)
       let start : Tok := ⟨"(start)", "symbol", "(start)"⟩
       let c0 : Cursor Tok Match := { Cursor.init start with tokens := matches_ }
       -- a=2: the live XPath2Parser.advance; `src` = the source, `r` = re-tokenizations `p@<matches>` joined by `~`
